@@ -82,12 +82,17 @@ def run(tier):
     elif narr < 256:
         raise ToolError("vacuity: %d (class, operand kinds, operator) array cases, expected 256" % narr)
     chk.cov["array_cases"] = narr
-    if rep["distinct_cases"] - narr < 470:
-        raise ToolError("vacuity: %d (class, expression / getter / driver) cases" % (rep["distinct_cases"] - narr))
+    nvec = len([k for k in rep["per_case"] if k.startswith("vec-class|")])
+    if nvec < 24:
+        raise ToolError("vacuity: %d vector-class capture cases, expected 24" % nvec)
+    chk.cov["vector_class_cases"] = nvec
+    if rep["distinct_cases"] - narr - nvec < 470:
+        raise ToolError("vacuity: %d (class, expression / getter / driver) cases" % (rep["distinct_cases"] - narr - nvec))
     for v in rep["violations"]:
         chk.violation("python binding: %s" % json.dumps(v, ensure_ascii=False)[:600], {"kind": "python-case", **v})
     chk.assumptions.append("only the eight scalar / nested classes are registered in the module; the fixed-size and dynamic vector "
-                           "classes are reached through the driver functions (lengths 1..12), where their results are compared exactly")
+                           "classes are reached through the driver functions (lengths 1..12): the drivers' results are compared exactly, and "
+                           "an intermediate object captured inside the closure is compared (value, repr, getters in the layout of PyBind.VecClasses)")
     return chk.finish(rule="one case = (Python class, expression from the TLC table) / (class, getter) / (driver, input length): the "
                            "expression is evaluated by the embedded CPython through the real bindings and by the Rust program of the "
                            "table; repr must equal the Rust Display string (round-trip exact rendering, so equality of text is "
